@@ -523,14 +523,22 @@ class Ref(object):
                                                   buf_err[0]["code"]))
         return
       if lenient:
-        # failed/deleting flow_mod: what happens to the packet is not
-        # specified; follow the implementation's transmissions
-        for port, data in outs:
-          if port in mdl.tx:
-            mdl.tx[port][0] += 1
-            mdl.tx[port][1] += len(data)
-        self.drop_pending_events()
-        return
+        # deleting flow_mod (OpenFlow 1.0: buffer_id is "not meaningful for
+        # OFPFC_DELETE*"): whether that is a use of the buffer is not
+        # specified.  Either it was one -- the packet is gone, and went
+        # through the given actions like any other -- or it was not, and
+        # then the packet is still held and nothing of it went out.
+        store = self.world.switch._packet_buffer
+        if 0 < buffer_id <= len(store) and store[buffer_id - 1] is not None:
+          self.sim.probes["deleting_flow_mod_left_buffer"] += 1
+          if outs:
+            self.dev("C18", "buffer/emitted-and-kept", "%s (a delete) naming "
+                     "held buffer %d emitted %d frame(s) and the packet is "
+                     "still held" % (what, buffer_id, len(outs)))
+          mdl.buffers[buffer_id] = (frame, in_port)
+          self.used_buffers.remove(buffer_id)
+          return
+        self.sim.probes["deleting_flow_mod_used_buffer"] += 1
       exp_outs, events = mdl.run_actions(acts, frame, in_port)
       # whether the slot is freed before or after the actions run is not
       # specified: while they run it may or may not count as occupied
